@@ -129,9 +129,11 @@ func (c *Ctx) Anchor(what string) {
 	c.add(Undecided, "anchor / "+what, token.NoPos, "anchor %q could not be resolved in the current tree; the rule cannot be evaluated", what)
 }
 
-func (c *Ctx) Visit(fn string)                    { c.visited[fn] = true }
-func (c *Ctx) Note(format string, args ...any)    { c.notes = append(c.notes, fmt.Sprintf(format, args...)) }
-func (c *Ctx) Obligations() []Obligation          { return c.obl }
+func (c *Ctx) Visit(fn string) { c.visited[fn] = true }
+func (c *Ctx) Note(format string, args ...any) {
+	c.notes = append(c.notes, fmt.Sprintf(format, args...))
+}
+func (c *Ctx) Obligations() []Obligation { return c.obl }
 func (c *Ctx) Merge(o *Ctx) {
 	for _, name := range o.ruleSeq {
 		ri := o.rules[name]
